@@ -411,6 +411,7 @@ func evalC04(op string, args []string) string {
 		changed := reusedBuffers(func() { radius.NewUserPassword(pt, sec, ra) }, pt, sec, ra)
 		priorVariants([][]byte{pt, sec, ra}, func(v [][]byte) { radius.NewUserPassword(v[0], v[1], v[2]) })
 		a, err := radius.NewUserPassword(pt, sec, ra)
+		priorVariants([][]byte{pt, sec, ra}, func(v [][]byte) { radius.NewUserPassword(v[0], v[1], v[2]) }) // (results are held across further calls)
 		if changed() {
 			return "arguments-changed"
 		}
@@ -423,6 +424,7 @@ func evalC04(op string, args []string) string {
 		changed := reusedBuffers(func() { radius.UserPassword(ct, sec, ra) }, ct, sec, ra)
 		priorVariants([][]byte{ct, sec, ra}, func(v [][]byte) { radius.UserPassword(v[0], v[1], v[2]) })
 		p, err := radius.UserPassword(ct, sec, ra)
+		priorVariants([][]byte{ct, sec, ra}, func(v [][]byte) { radius.UserPassword(v[0], v[1], v[2]) })
 		if changed() {
 			return "arguments-changed"
 		}
@@ -514,6 +516,7 @@ func evalC11(op string, args []string) string {
 		changed := reusedBuffers(func() { radius.NewTunnelPassword(pt, salt, sec, ra) }, pt, salt, sec, ra)
 		priorVariants([][]byte{pt, salt, sec, ra}, func(v [][]byte) { radius.NewTunnelPassword(v[0], v[1], v[2], v[3]) })
 		a, err := radius.NewTunnelPassword(pt, salt, sec, ra)
+		priorVariants([][]byte{pt, salt, sec, ra}, func(v [][]byte) { radius.NewTunnelPassword(v[0], v[1], v[2], v[3]) })
 		if changed() {
 			return "arguments-changed"
 		}
@@ -526,6 +529,11 @@ func evalC11(op string, args []string) string {
 		changed := reusedBuffers(func() { radius.TunnelPassword(ct, sec, ra) }, ct, sec, ra)
 		priorVariants([][]byte{ct, sec, ra}, func(v [][]byte) { radius.TunnelPassword(v[0], v[1], v[2]) })
 		pw, salt, err := radius.TunnelPassword(ct, sec, ra)
+		pwWas, saltWas := hx(pw), hx(salt)
+		priorVariants([][]byte{ct, sec, ra}, func(v [][]byte) { radius.TunnelPassword(v[0], v[1], v[2]) })
+		if hx(pw) != pwWas || hx(salt) != saltWas {
+			return "result-changed-by-a-later-call"
+		}
 		if changed() {
 			return "arguments-changed"
 		}
